@@ -225,11 +225,13 @@ func RunC13(env *sim.Env) {
 				kind = 2
 			case k%4 == 1 && opts.CatchForm < 2:
 				kind = 1
+			case k%4 == 2:
+				kind = 3 // an error that wraps another one: the catch variable holds the error raised, not its cause
 			}
 			fc := Call{Tmpl: m, Data: data, FaultProbe: k, FaultKind: kind}
 			F, _ := run(&jetSet{set}, fc)
 			env.Event("fault k=%d id=%d inst=%d -> %016x", k, id, j, sim.HashString(F.Key()))
-			env.Stat("fault:function_"+[]string{"panics_with_error", "panics_with_string", "hits_go_runtime_error"}[kind]+"_inside_try_body", 1)
+			env.Stat("fault:function_"+[]string{"panics_with_error", "panics_with_string", "hits_go_runtime_error", "panics_with_wrapping_error"}[kind]+"_inside_try_body", 1)
 			// no trace in later executions either: the fault-free run repeated right after must be unchanged
 			if reruns < 10 {
 				reruns++
